@@ -19,7 +19,11 @@ in-place mutations of tensors (requires_grad_ flip, writes through .data and thr
 writes, attribute replacement by another kind, append / pop / setitem / delete, changes inside a nested object}
 up to depth 3 (quick) / 4 (thorough): every load (after every save in the quick tier) must equal the object as
 it was at the save that wrote the target, and earlier targets must still load to what the object was then. A WIDTH family
-stores containers of 9..101 elements (slot names of 1, 2 and 3 digits). An ALIASING family stores graphs in which one object (AutoSerialize child, ndarray, tensor, list, dict, set, Path, module)
+stores containers of 9..101 elements (slot names of 1, 2 and 3 digits). FAILED-OPERATION histories: a save that raises (an unsaveable generator / memoryview / object whose __getstate__
+raises, at the root, in a nested child, inside containers) or a load that raises (damaged file) is followed, after the repair,
+by save + load of the same root, of a sibling root sharing the child and of the child alone: all as in a fresh process.
+RE-ENTRANT calls: hooks the loader really runs (__attrs_post_init__, __setattr__, __setstate__/__getstate__ of dill values) load
+a companion archive or save another object while the outer load / save is in progress. An ALIASING family stores graphs in which one object (AutoSerialize child, ndarray, tensor, list, dict, set, Path, module)
 occurs several times (two attributes, twice in a list, list and dict, diamond, two depths): every occurrence must load back
 equal (identity between occurrences after load is counted, not claimed); true cycles are measured (refused loudly = counted;
 saved and loaded = must equal the input). A GLOBAL-MODE family saves and/or loads a reduced graph set under torch.no_grad,
@@ -214,6 +218,248 @@ def eval_cycle(item, seed=0, scratch="/tmp"):
     t.extra["cycles_refused_loudly" if outcome[0] != "round_trips" else "cycles_saved_and_loaded"] += 1
     for cls, msg in fails:
         t.fail(cls, {"kind": "cycle", "name": item["name"], "graph": item["g"], "store": item["store"], "seed": seed}, msg)
+    return t
+
+
+# ----------------------------------------------------------------------------- failed operations, then good ones
+# A save that raises (an unsaveable leaf somewhere in the graph) or a load that raises (a damaged file) must leave
+# nothing behind in the process: after the leaf is removed or replaced, saving + loading the same root, a sibling root
+# that shares the nested child, and the child alone must give exactly what a fresh process gives.
+BAD_LEAVES = ["generator", "memoryview", "getstate_raises"]  # (a lambda holding a lock is pickled by dill: not unsaveable)
+BAD_POSITIONS = ["root_attribute", "nested_attribute", "in_root_list", "in_nested_dict"]
+
+
+def _bad_leaf(kind):
+    import threading
+
+    if kind == "generator":
+        return (i for i in range(3))
+    if kind == "memoryview":
+        return memoryview(b"not picklable")
+    if kind == "getstate_raises":
+        return S.RefusesPickling()
+    raise ValueError(kind)
+
+
+def _failed_graph(seed, leaf=None, position=None, replacement=None):
+    """(root, sibling root sharing the child, child). `leaf` placed at `position`; None = absent; replacement = a str there instead."""
+    child = S.build(S.O("NodeA", v=S.L("i-1"), t=S.L("t_f32_grad"), d=S.D(("k", S.L("arr:i16:(3,)")))), seed)
+    root = S.build(S.O("Root", a=S.L("arr:f64:(2, 3)"), l=S.C("list", S.L("s"), S.L("arr:u8:(3,)")), z=S.L("path_rel")), seed)
+    root.child = child
+    sib = S.build(S.O("Root", other=S.L("s_unicode"), arr=S.L("arr:i64:()")), seed)
+    sib.child = child
+    val = leaf if leaf is not None else replacement
+    if val is not None:
+        if position == "root_attribute":
+            root.m_bad = val
+        elif position == "nested_attribute":
+            child.m_bad = val
+        elif position == "in_root_list":
+            root.l.append(val)
+        elif position == "in_nested_dict":
+            child.d["m_bad"] = val
+    return root, sib, child
+
+
+def run_failed_save(item, seed, scratch):
+    leaf, pos, repair, store = item["leaf"], item["position"], item["repair"], item["store"]
+    fails, outcome = [], []
+    base = {"relation": "history:good_save_after_failed_save"}  # leaf / position / repair go to the message and the case
+    label = f"failed-save history store={store}: unsaveable {leaf} at {pos}; save raises; leaf {'removed' if repair == 'remove' else 'replaced by a str'};"
+    with S.Workdir(scratch, "C01") as wd:
+        root, sib, child = _failed_graph(seed, leaf=_bad_leaf(leaf), position=pos)
+        p = S.target(wd, store, "bad")
+        try:
+            with S.quiet():
+                root.save(p, store=store)
+            return fails, ["unsaveable_leaf_was_saved"], "leaf_was_saved"
+        except Exception as e:
+            outcome.append(type(e).__name__)
+        # repair in place, on the very same objects
+        rep = None if repair == "remove" else "s"
+        if pos == "root_attribute":
+            delattr(root, "m_bad") if rep is None else setattr(root, "m_bad", rep)
+        elif pos == "nested_attribute":
+            delattr(child, "m_bad") if rep is None else setattr(child, "m_bad", rep)
+        elif pos == "in_root_list":
+            root.l.pop()
+            if rep is not None:
+                root.l.append(rep)
+        else:
+            child.d.pop("m_bad")
+            if rep is not None:
+                child.d["m_bad"] = rep
+        eroot, esib, echild = _failed_graph(seed, replacement=rep, position=pos)
+        for name, obj, exp in (("same_root", root, eroot), ("sibling_root_sharing_the_child", sib, esib), ("child_alone", child, echild)):
+            st, y = S.save_load(obj, wd, store, name="good_" + name)
+            if st != "ok":
+                fails.append((dict(base, followup=name, symptom=st, exc=type(y).__name__), f"{label} then save+load of {name}: {st.replace('_', ' ')} {type(y).__name__}: {str(y)[:200]} (expected: as in a fresh process)"))
+                outcome.append([name, st])
+                continue
+            d = S.diff(exp, y, slack=True)
+            outcome.append([name, "ok" if not d else "differs"])
+            if d:
+                fails.append((S.cls_of(d[0], **dict(base, followup=name)), f"{label} then save+load of {name} differs from a fresh build: {S.fmt(d)}"))
+    return fails, outcome, "ran"
+
+
+def run_failed_load(item, seed, scratch):
+    """A damaged file makes load raise; a good file loaded afterwards must be right."""
+    import os
+
+    store, damage = item["store"], item["damage"]
+    fails = []
+    desc = MODE_GRAPHS["nested_objects"]
+    with S.Workdir(scratch, "C01") as wd:
+        good, bad = S.target(wd, store, "good"), S.target(wd, store, "bad")
+        with S.quiet():
+            S.build(desc, seed).save(good, store=store)
+            S.build(MODE_GRAPHS["tensors"], seed).save(bad, store=store)
+        if store == "zip":
+            data = open(bad, "rb").read()
+            open(bad, "wb").write(data[: len(data) // 2] if damage == "truncated" else data[:100] + b"garbage" + data[107:])
+        else:
+            victims = sorted(os.path.join(dp, f) for dp, _, fs in os.walk(bad) for f in fs if f == "zarr.json" and dp != bad)
+            v = victims[len(victims) // 2]
+            if damage == "truncated":
+                open(v, "wb").write(open(v, "rb").read()[:20])
+            else:
+                os.remove(v)
+        try:
+            with S.quiet():
+                S.q_load(bad)
+            first = "damaged_file_loaded"
+        except Exception as e:
+            first = type(e).__name__
+        try:
+            with S.quiet():
+                y = S.q_load(good)
+        except Exception as e:
+            fails.append(({"relation": "history:good_load_after_failed_load", "damage": damage, "symptom": "load_raises", "exc": type(e).__name__}, f"store={store}: load of a {damage} file ({first}), then load of a good file raised {type(e).__name__}: {str(e)[:200]}"))
+            return fails, [first, "load_raises"]
+        d = S.diff(S.build(desc, seed), y, slack=True)
+        if d:
+            fails.append((S.cls_of(d[0], relation="history:good_load_after_failed_load", damage=damage), f"store={store}: load of a {damage} file ({first}), then the good file loads differently from its input: {S.fmt(d)}"))
+    return fails, [first, "ok" if not d else "differs"]
+
+
+def eval_failed(item, seed=0, scratch="/tmp"):
+    t = Tally()
+    if item["kind"] == "failed_save":
+        fails, outcome, status = run_failed_save(item, seed, scratch)
+        t.extra["failed_save_histories"] += 1
+        t.extra["failed_save_histories_where_the_leaf_was_saved_after_all"] += int(status != "ran")
+    else:
+        fails, outcome = run_failed_load(item, seed, scratch)
+        t.extra["failed_load_histories"] += 1
+    t.case(key=["failed_op", item], nontrivial=True, outcome=outcome)
+    for cls, msg in fails:
+        t.fail(cls, dict(item, seed=seed), msg)
+    return t
+
+
+# ----------------------------------------------------------------------------- re-entrant loads and saves
+# Hooks the loader / pickler really runs (measured on HEAD): `__attrs_post_init__` (called on ANY class that defines it, after
+# the object's attributes are restored), `__setattr__` (every attribute is restored through setattr: the hook runs in the
+# middle of the object's restore), `__setstate__` / `__getstate__` of a plain object in the dill fallback. Each hook loads a
+# companion archive (zip or dir) or saves another object while the outer load / save is in progress; the outer result must
+# be what it is without the nesting.
+REENTRANT_HOOKS = ["post_init_loads", "setattr_loads", "setstate_loads", "post_init_saves", "getstate_saves"]
+
+
+def _reentrant_graph(hook, wd, comp_store, seed, layout):
+    """(root to save, expected loaded root, side path or None). Built with the hooks switched off."""
+    comp_desc = MODE_GRAPHS["nested_objects"] if layout == "other_layout" else S.O("Root", a_first=S.L("arr:f64:(2, 3)"), z_last=S.L("t_f64"), l=S.C("list", S.L("s"), S.L("arr:u8:(3,)")))
+    comp_path = S.target(wd, comp_store, "companion")
+    side_path = S.target(wd, comp_store, "side")
+    S.HOOKS_ENABLED[0] = False
+    try:
+        with S.quiet():
+            S.build(comp_desc, seed + 1).save(comp_path, store=comp_store)
+
+        def make(expected):
+            root = S.build(S.O("Root", a_first=S.L("arr:f64:(2, 3)"), z_last=S.L("t_f64"), l=S.C("list", S.L("s"), S.L("arr:u8:(3,)")), m_tuple=S.C("tuple", S.L("i-1"), S.L("s"))), seed)
+            if hook in ("post_init_loads", "post_init_saves", "setattr_loads"):
+                h = (S.HookedSetattr if hook == "setattr_loads" else S.HookedPostInit)()
+                object.__setattr__(h, "arr", S.make_array("i16", (3,), seed + 3))
+                object.__setattr__(h, "companion", ["load", comp_path] if hook != "post_init_saves" else ["save", side_path, comp_store])
+                object.__setattr__(h, "tail", S.make_array("f32", (2,), seed + 4))
+                if expected and hook != "post_init_saves":
+                    object.__setattr__(h, "loaded", S.build(comp_desc, seed + 1))
+                root.hooked = h
+                # a second hooked sibling: whatever order the loader reads the groups in, one nested call happens before another sibling is read
+                h2 = (S.HookedSetattr if hook == "setattr_loads" else S.HookedPostInit)()
+                object.__setattr__(h2, "arr", S.make_array("i16", (3,), seed + 5))
+                object.__setattr__(h2, "companion", ["load", comp_path] if hook != "post_init_saves" else ["save", side_path, comp_store])
+                object.__setattr__(h2, "tail", S.make_array("f32", (2,), seed + 6))
+                if expected and hook != "post_init_saves":
+                    object.__setattr__(h2, "loaded", S.build(comp_desc, seed + 1))
+                root.b_hooked2 = h2
+            else:
+                ph = S.PickleHook(["load", comp_path] if hook == "setstate_loads" else ["save_on_getstate", side_path, comp_store])
+                if expected and hook == "setstate_loads":
+                    ph.loaded = S.build(comp_desc, seed + 1)
+                root.hooked = ph
+                ph2 = S.PickleHook(["load", comp_path] if hook == "setstate_loads" else ["save_on_getstate", side_path, comp_store], "p2")
+                if expected and hook == "setstate_loads":
+                    ph2.loaded = S.build(comp_desc, seed + 1)
+                root.b_hooked2 = ph2
+                root.n_list = [S.PickleHook(None, "q"), "s"]
+            return root
+
+        return make(False), make(True), (side_path if hook in ("post_init_saves", "getstate_saves") else None)
+    finally:
+        S.HOOKS_ENABLED[0] = True
+
+
+def _pickle_hook_diff(exp, got):
+    """PickleHook objects compare by tag/companion through ==; their `loaded` payload is compared here."""
+    for name in ("hooked", "b_hooked2"):
+        e, g = getattr(exp, name, None), getattr(got, name, None)
+        if isinstance(e, S.PickleHook) and isinstance(g, S.PickleHook) and hasattr(e, "loaded"):
+            if not hasattr(g, "loaded"):
+                return [{"path": f"x.{name}.loaded", "position": "attribute", "what": "attr_set", "expected": "loaded", "observed": "absent", "kind": "object", "missing": ["loaded"]}]
+            d = S.diff(e.loaded, g.loaded, slack=True, root=f"x.{name}.loaded")
+            if d:
+                return d
+    return []
+
+
+def run_reentrant(item, seed, scratch):
+    hook, store, comp_store, layout = item["hook"], item["store"], item["companion_store"], item["layout"]
+    fails = []
+    base = {"relation": "reentrant_call_independent", "hook": hook, "outer_store": store, "companion_store": comp_store}
+    label = f"re-entrant {hook}: outer store={store}, companion store={comp_store} ({layout})"
+    with S.Workdir(scratch, "C01") as wd:
+        root, exp, side = _reentrant_graph(hook, wd, comp_store, seed, layout)
+        st, y = S.save_load(root, wd, store, name="outer")
+        if st != "ok":
+            fails.append((dict(base, symptom=st, exc=type(y).__name__), f"{label}: {st.replace('_', ' ')} {type(y).__name__}: {str(y)[:200]} (expected: the result of the same graph without the nested call)"))
+            return fails, [st, type(y).__name__]
+        d = S.diff(exp, y, slack=True) or _pickle_hook_diff(exp, y)
+        if d:
+            fails.append((S.cls_of(d[0], **base), f"{label}: the outer load differs from the in-memory graph (with the companion attached): {S.fmt(d)}"))
+        if side is not None:
+            try:
+                with S.quiet():
+                    z = S.q_load(side)
+                ok = isinstance(z, S.NodeC) and set(vars(z)) == {"v", "arr"} and list(z.arr) == [0, 1, 2, 3]
+            except Exception as e:
+                ok, z = False, e
+            if not ok:
+                fails.append((dict(base, what="side_file", symptom="side_save_wrong"), f"{label}: the object saved by the hook does not load back: {S.short(z)}"))
+    return fails, S.summary(y)
+
+
+def eval_reentrant(item, seed=0, scratch="/tmp"):
+    t = Tally()
+    fails, outcome = run_reentrant(item, seed, scratch)
+    t.case(key=["reentrant", item], nontrivial=True, outcome=outcome)
+    t.extra["reentrant_points"] += 1
+    for cls, msg in fails:
+        t.fail(cls, dict(item, kind="reentrant", seed=seed), msg)
+    if item["hook"] == "setattr_loads" and item["store"] == "zip" and item["companion_store"] == "zip":
+        t.sample({"family": "reentrant", "hook": item["hook"], "outer_store": item["store"], "companion_store": item["companion_store"], "layout": item["layout"], "observed": "outer load equals the in-memory graph" if not fails else f"{len(fails)} failure(s)"}, cap=1)
     return t
 
 
@@ -709,6 +955,14 @@ def run(ctx):
     merged_c = ctx.pmap(eval_cycle, cyc_items, chunk=1, label="cycles (measured)", seed=ctx.seed, scratch=ctx.scratch)
     mode_items = [{"graph": g, "save_mode": sm, "load_mode": lm} for sm, lm in mode_phases(ctx.quick) for g in MODE_GRAPHS]
     merged_m = ctx.pmap(eval_mode, mode_items, chunk=2, label="global modes", seed=ctx.seed, scratch=ctx.scratch)
+    fitems = [{"kind": "failed_save", "leaf": lf, "position": pos, "repair": rp, "store": st}
+              for lf in BAD_LEAVES for pos in BAD_POSITIONS for rp in (["remove"] if ctx.quick else ["remove", "replace"])
+              for st in (STORES if not ctx.quick else [STORES[(BAD_LEAVES.index(lf) + BAD_POSITIONS.index(pos)) % 2]])]
+    fitems += [{"kind": "failed_load", "store": st, "damage": dm} for st in STORES for dm in ("truncated", "member_missing")]
+    merged_f = ctx.pmap(eval_failed, fitems, chunk=1, label="failed operations", seed=ctx.seed, scratch=ctx.scratch)
+    ritems = [{"hook": h, "store": st, "companion_store": cs, "layout": lay} for h in REENTRANT_HOOKS for st in STORES for cs in STORES
+              for lay in (["same_layout"] if ctx.quick else ["same_layout", "other_layout"])]
+    merged_r = ctx.pmap(eval_reentrant, ritems, chunk=1, label="re-entrant calls", seed=ctx.seed, scratch=ctx.scratch)
     hdepth = 3 if ctx.quick else 4
     hitems = enumerate_histories(hdepth, ctx.quick)
     merged_h = ctx.pmap(eval_history, hitems, label="histories", seed=ctx.seed, scratch=ctx.scratch)
@@ -718,6 +972,10 @@ def run(ctx):
         covered |= S.dispatch_classes(it["g"])
     need = set(S.REPS) | set(S.KINDS)
     ctx.coverage.update(
+        failed_operations={"unsaveable_leaves": BAD_LEAVES, "positions": BAD_POSITIONS, "followups": ["same_root", "sibling_root_sharing_the_child", "child_alone"],
+                           "failed_save_histories": int(merged_f.extra["failed_save_histories"]), "where_the_leaf_was_saved_after_all": int(merged_f.extra["failed_save_histories_where_the_leaf_was_saved_after_all"]),
+                           "failed_load_histories": int(merged_f.extra["failed_load_histories"])},
+        reentrant={"hooks": REENTRANT_HOOKS, "points": int(merged_r.extra["reentrant_points"]), "hooks_the_loader_runs": ["__new__", "__setattr__ (every restored attribute)", "__attrs_post_init__ (any class that defines it)", "__setstate__ / __getstate__ of dill-fallback values"]},
         aliasing={"graphs": [S.show(g)[:160] for g, _ in S._aliasing_graphs()], "groups_of_aliased_occurrences_loaded": int(merged.extra["alias_groups_loaded"]),
                   "groups_still_one_object_after_load": int(merged.extra["alias_groups_still_one_object_after_load"])},
         cycles={"graphs": [n for n, _ in cyc], "cases": len(cyc_items), "refused_loudly": int(merged_c.extra["cycles_refused_loudly"]), "saved_and_loaded": int(merged_c.extra["cycles_saved_and_loaded"])},
@@ -752,6 +1010,10 @@ def run(ctx):
         dispatch_classes_covered=sorted(covered),
         exhaustive=True,
     )
+    if int(merged_f.extra["failed_save_histories"]) + int(merged_f.extra["failed_load_histories"]) != len(fitems) or int(merged_r.extra["reentrant_points"]) != len(ritems):
+        raise Broken(f"failed-operation / re-entrant enumeration incomplete: {dict(merged_f.extra)}, {dict(merged_r.extra)}")
+    if int(merged_f.extra["failed_save_histories_where_the_leaf_was_saved_after_all"]) == int(merged_f.extra["failed_save_histories"]):
+        raise Broken("no unsaveable leaf made save raise: the failed-save histories are vacuous")
     if int(merged_c.extra["cycles"]) != len(cyc_items) or int(merged_m.extra["mode_points"]) != len(mode_items) * len(STORES):
         raise Broken(f"cycle / global-mode enumeration incomplete: {merged_c.extra['cycles']} of {len(cyc_items)}, {merged_m.extra['mode_points']} of {len(mode_items) * len(STORES)}")
     if not need <= covered:
@@ -768,6 +1030,20 @@ def run(ctx):
 
 def replay(ctx, case):
     seed = case.get("seed", ctx.seed)
+    if case["kind"] in ("failed_save", "failed_load"):
+        out = run_failed_save(case, seed, ctx.scratch) if case["kind"] == "failed_save" else run_failed_load(case, seed, ctx.scratch)
+        for cls, msg in out[0]:
+            ctx.fail(cls, case, msg)
+        print(f"  {case}: steps observed {out[1]}")
+        print(f"  expected: after the failed operation every good operation behaves as in a fresh process; observed: {len(out[0])} failure(s)")
+        return
+    if case["kind"] == "reentrant":
+        fails, outcome = run_reentrant(case, seed, ctx.scratch)
+        for cls, msg in fails:
+            ctx.fail(cls, case, msg)
+        print(f"  hook={case['hook']} outer store={case['store']} companion store={case['companion_store']} layout={case['layout']}: loaded {str(outcome)[:500]}")
+        print(f"  expected: the outer load equals the in-memory graph with the companion attached; observed: {len(fails)} failure(s)")
+        return
     if case["kind"] == "cycle":
         fails, outcome = run_cycle(case, seed, ctx.scratch)
         for cls, msg in fails:
